@@ -84,7 +84,32 @@ def check_prf(acc, prf_mod, rng, digest, key, msg, n, declared):
         acc.violation("prf:nondeterministic", "two calls differ", case)
     if out != ref_p_hash(key, msg, n, digest):
         acc.violation(f"prf:differs-from-rfc5246:{nclass}", "output != reference P_hash", case)
+    elif rng.random() < 0.2:
+        buffers(acc, "prf", lambda k, m: f(k, m), key, msg, out, case)
     return out
+
+
+def buffers(acc, who, call, key, msg, want, case):
+    """Key / message handed over in caller-owned bytearrays, the call repeated on the same buffers: refusing the type
+    is fine; a different answer, a changed buffer or a second answer that differs is not."""
+    acc.count(who + ".caller_buffers")
+    kb = bytearray(key) if key is not None else None
+    mb = bytearray(msg)
+    try:
+        o1 = call(kb, mb)
+        o2 = call(kb, mb)
+    except TypeError:
+        acc.count(who + ".caller_buffers_refused")
+        return
+    except Exception as e:
+        acc.violation(f"{who}:bytearray-input-raised", f"{type(e).__name__}: {e}", case)
+        return
+    if bytes(mb) != msg or (kb is not None and bytes(kb) != key):
+        acc.violation(f"{who}:caller-buffer-mutated", f"the call changed the caller's bytearray "
+                                                      f"({len(msg)} -> {len(mb)} message bytes)", case)
+    elif o1 != want or o2 != want:
+        acc.violation(f"{who}:bytearray-input-differs", "the output for a bytearray input (or for the same buffer "
+                                                        "passed a second time) differs from the output for bytes", case)
 
 
 def check_hash(acc, hash_mod, rng, digest, msg, n):
@@ -112,6 +137,8 @@ def check_hash(acc, hash_mod, rng, digest, msg, n):
         acc.violation("hash:nondeterministic", "two calls differ", case)
     if out != ref_hash(msg, n, digest):
         acc.violation(f"hash:differs-from-reference:{nclass}", "output != reference expansion", case)
+    elif rng.random() < 0.2:
+        buffers(acc, "hash", lambda k, m: h(m), None, msg, out, case)
     return out
 
 
